@@ -68,7 +68,10 @@ def gen_cases(tier, seed):
         args += ["-L"] if viaL else r.choice([[], [], [], ["-L"], ["--gitignore"], ["--fsync"], ["--no-perms"], ["--no-timestamps", "--ownership"], ["--reflink", "never"], ["--no-progress"]])
         hasblk |= viaL
         args += [nodes[0]["p"], "dst"] if sole else ["-r", "src", "dst"]
-        yield {"spec": spec, "pre": pre, "args": args, "driver": driver, "sole": sole, "prior": prior, "noclobber": noclobber, "hasblk": hasblk,
+        # now and then the node cannot be created (mknod refused: no CAP_MKNOD, immutable directory, unsupported by the file system):
+        # exit 0 must still mean that every node is there
+        refuse = r.choice([1, 1, 13, 28, 95, 38]) if (not hasblk and prior != "dir" and r.random() < 0.12) else None
+        yield {"refuse": refuse, "refuse_nth": r.randint(1, k), "spec": spec, "pre": pre, "args": args, "driver": driver, "sole": sole, "prior": prior, "noclobber": noclobber, "hasblk": hasblk,
                "umask": r.choice([0, 0o022, 0o077, 0o027]), "fs": "tmpfs" if r.random() < 0.3 else "ext4", "dstp": dstp}
 
 
@@ -79,7 +82,12 @@ def run_case(case):
         tree.materialize(root, case["spec"])
         tree.materialize(root, case["pre"])
         pre = tree.snapshot(root)
-        run = core.run_xcp(sb, case["args"], {"log_mode": "full", "umask": case["umask"]})
+        rules = [{"id": "refuse", "sys": "mknodat", "under": root + "/", "nth": case["refuse_nth"], "action": "fault", "errno": case["refuse"]}] if case.get("refuse") else []
+        run = core.run_xcp(sb, case["args"], {"log_mode": "full", "umask": case["umask"], "rules": rules})
+        if case.get("refuse"):
+            res["counters"]["mknod-refused-runs"] = 1
+            if run.verdict == "exited" and run.rule("refuse")["applied"] and run.exit0:
+                res["counters"]["mknod-refused-exit0"] = 1
         if run.verdict != "exited":
             res["inconc"].append("run-" + run.verdict)
             return res
